@@ -72,7 +72,7 @@ def QOkOn (names : List String) (q : String → String) : Prop := ∀ n ∈ name
 
 /-- an attribute the `<sheet>` arm ignores -/
 def InertSheetAttr (k : String) : Prop :=
-  k ≠ "name" ∧ k ≠ "state" ∧ ¬ ((afterColon k.toList).isSome = true ∧ localName k = "id")
+  k ≠ "name" ∧ k ≠ "state" ∧ ¬ relIdKey k
 
 /-- the package is consistent and the layout legal -/
 structure PackageOk {α : Type} (sheets : List (PSheet α)) (lay : PLayout) : Prop where
